@@ -25,6 +25,7 @@ import hashlib
 from harness import indep_ber as B
 from harness import indep_usm as U
 from harness import opslib as O
+from harness import rawdigest as RD
 from harness import refagent as RA
 from harness import walklib as W
 from harness.c05 import KIND_OF, Seam, gen_op, intended
@@ -188,6 +189,7 @@ def run(ctx):
     requests(ctx, res, reqs, impls)
     responses(ctx, res)
     keys(ctx, res, reqs, impls)
+    RD.run(ctx, res, reqs, impls)
     if ctx.driver_ok:
         for (suite, case, got), ans in zip(impls, run_driver(reqs, timeout=1200)):
             res.case(suite, case)
@@ -195,6 +197,10 @@ def run(ctx):
             if suite == "unit-key":
                 if m != got:
                     res.disagree(suite, case, got[:80], str(m)[:80])
+                continue
+            if suite == "unit-rawdigest":
+                if m != got:
+                    res.disagree(suite, case, got[:1] + [str(got[1:])[:200]], str(m)[:200])
                 continue
             if not isinstance(m, dict) or m.get("zeroed") != got["zeroed"]:
                 res.disagree(suite, case, got["zeroed"][:400], str(m.get("zeroed") if isinstance(m, dict) else m)[:400])
